@@ -87,13 +87,15 @@ class Prop(PropBase):
                         break
         if res:
             return res
-        # host clock: every timestamp within [feed - packet_duration, feed] (+ blind gaps); checked coarsely: ts <= last host value + 30 ms and >= first host - 1 ms
+        # host clock: every timestamp within [feed - packet_duration, feed] (+ blind gaps); checked coarsely: ts <= last host value + 1.05 s and >= first host - 2 ms (the exact value is what the model comparison checks)
         if '_host_' not in name:
             return []
         hs = [int(l.split()[1]) for l in scn if l.startswith('H ')]
         if not hs:
             return []
-        lo, hi = min(hs) / 1e6 - 0.002, max(hs) / 1e6 + 0.03
+        # upper slack: a packet that straddles the FOV-blind sector stamps its later blocks one blind duration ahead, and the
+        # announced blind duration can approach a whole revolution (1 s at 60 rpm); the scenario's host clock does not advance by it
+        lo, hi = min(hs) / 1e6 - 0.002, max(hs) / 1e6 + 1.05
         for l in impl:
             if l.startswith('p '):
                 ts = float(l.split()[7])
